@@ -18,6 +18,7 @@ EXPLANATION = (
     "write of a file the directory scan accepts as an entry is atomic (written under a name the scan rejects, then os.replace / "
     "os.rename) OR every read treats undecodable content as a miss (handler for ValueError/OSError around the load whose value makes "
     "the caller run the pipeline).  JSON round-trip fidelity of cached rows is NOT decided."
+    ' K1 requires public (re-assignable) attributes to be read when the key is computed (a snapshot taken in __init__ goes stale), counts helpers that shape the stored payload as part of the region and a public attribute as itself; K2 recognises gzip/bz2/lzma/io open calls and demands EOFError coverage before it calls a compressed reader tolerant.'
 )
 ASSUMPTIONS = ["os.replace is atomic on the cache file system", "sha256 collisions are ignored"]
 
